@@ -362,7 +362,6 @@ fn error_label(e: &NextRowError) -> String {
 struct Observed {
     delivered: Vec<i32>,
     fin: String,
-    dropped_at_execs: Option<usize>,
 }
 
 async fn run_case(case: &Case, ctx: &mut Ctx) -> String {
@@ -440,7 +439,7 @@ async fn run_case(case: &Case, ctx: &mut Ctx) -> String {
     let script = Arc::clone(&env.script);
     let consumer = case.consumer;
     let body = async {
-        let mut obs = Observed { delivered: Vec::new(), fin: String::new(), dropped_at_execs: None };
+        let mut obs = Observed { delivered: Vec::new(), fin: String::new() };
         let pager = match conn {
             Client::Conn(c) => c.execute_iter_raw(prepared, SerializedValues::new()).await.map_err(|e| error_label(&e)),
             Client::Sess(s) => s.execute_iter(prepared, ()).await.map_err(|e| pager_error_label(&e)),
@@ -476,7 +475,6 @@ async fn run_case(case: &Case, ctx: &mut Ctx) -> String {
         loop {
             if let Some(k) = limit {
                 if obs.delivered.len() >= k {
-                    obs.dropped_at_execs = Some(script.lock().unwrap().execs.len());
                     drop(stream);
                     obs.fin = "dropped".to_owned();
                     return obs;
@@ -572,6 +570,9 @@ async fn run_case(case: &Case, ctx: &mut Ctx) -> String {
     }
     // 2. paging-state chain: an EXECUTE asking for page k carries the state returned with page k-1
     for (i, (pos, st)) in s.execs.iter().enumerate() {
+        if *pos >= 1 && case.pages.get(pos - 1).is_none_or(|p| p.state.is_none()) {
+            ctx.fail(format!("EXECUTE #{} arrived after the node had answered page {} without a paging state (no more pages)", i, pos - 1));
+        }
         let expected = if *pos == 0 { None } else { case.pages.get(pos - 1).and_then(|p| p.state.clone()) };
         if *st != expected {
             ctx.fail(format!(
@@ -724,7 +725,8 @@ fn states(rng: &mut Rng, n: usize, repeat: bool) -> Vec<Vec<u8>> {
             continue;
         }
         loop {
-            let len = match rng.below(8) {
+            let len = match rng.below(9) {
+                8 if n <= 8 => *rng.pick(&[41usize, 127, 128, 255, 256, 300, 1000]),
                 0 => 0,
                 1 => 1,
                 2 => 40,
@@ -844,10 +846,10 @@ fn gen_family(rng: &mut Rng, thorough: bool, sess: bool, emit: &mut dyn FnMut(St
     }
     // 3. random: 0..200 rows, random splits, empty pages, long states, repeated states, faults, consumers
     let n_random = match (thorough, sess) {
-        (true, false) => 60_000,
-        (true, true) => 20_000,
-        (false, false) => 6_000,
-        (false, true) => 2_000,
+        (true, false) => 250_000,
+        (true, true) => 80_000,
+        (false, false) => 20_000,
+        (false, true) => 8_000,
     };
     let fatal: &[&str] = if sess { &["o", "r", "s", "v", "uu", "RR", "o", "uu"] } else { &["o", "r", "s", "c", "v", "uu", "R"] };
     for _ in 0..n_random {
